@@ -47,6 +47,31 @@ def real_table(cols):
     return t.get_string()
 
 
+def spec_strip_indent(t):
+    """every line feed that is directly followed by whitespace disappears together with the whole whitespace run
+    behind it (leftmost first); nothing else changes.  Written without `re`."""
+    out, i, n = [], 0, len(t)
+    while i < n:
+        if t[i] == "\n" and i + 1 < n and t[i + 1].isspace():
+            i += 1
+            while i < n and t[i].isspace():
+                i += 1
+        else:
+            out.append(t[i])
+            i += 1
+    return "".join(out)
+
+
+def spec_plot_div(html):
+    """the diagram's HTML without its indentation; when the class name occurs exactly once the style attribute follows it.
+    Written without str.count / str.replace."""
+    t = spec_strip_indent(html)
+    parts = t.split("sk-top-container")
+    if len(parts) == 2:
+        return parts[0] + 'sk-top-container" style="overflow: auto;' + parts[1]
+    return t
+
+
 class Ref:
     """The card as the properties describe it."""
 
@@ -124,6 +149,10 @@ class Ref:
         elif kind == "hyper":
             cols = (("Hyperparameter", tuple(n for n, _ in op[3])), ("Value", tuple(v for _, v in op[3])))
             self.put(spec_split(op[1]), Node(spec_split(op[1])[-1], op[2] or "", True, "B", cols))
+        elif kind == "modelplot":
+            # a plain section under the last path part: description (if any), blank line, the diagram
+            div = spec_plot_div(op[3])
+            self.put(spec_split(op[1]), Node(spec_split(op[1])[-1], f"{op[2]}\n\n{div}" if op[2] else div))
         elif kind == "select":
             return self.select(op[1])
         elif kind == "chain":
@@ -223,14 +252,17 @@ def has_empty_middle(op):
     return False
 
 
-def check_sequence(ops, new_card, apply_op, build=None):
-    """Replays ops on a real card and on the reference; returns None or the first step where they differ."""
-    from impl_card import model_op, path_string
+def check_sequence(ops, new_card, apply_op, build=None, model_op=None):
+    """Replays ops on a real card and on the reference; returns None or the first step where they differ.
+    model_op must come from the module whose apply_op is used (it reads the HTML text recorded by that module's wrapper)."""
+    from impl_card import path_string
+    if model_op is None:
+        from impl_card import model_op
     card, ref = new_card(), Ref()
     for i, op in enumerate(ops):
-        mo = model_op(op)
-        want_cls, want = attempt(lambda: ref.apply(mo))
         got_cls, got = apply_op(card, op)
+        mo = model_op(op)            # after the call: a real estimator's HTML is what the implementation received
+        want_cls, want = attempt(lambda: ref.apply(mo))
         if got_cls == "sel":
             got_cls = "ok"
 
